@@ -5,6 +5,7 @@
   isolated; and every cross-filter acceptance has the recorded shape (same store + the session id presented under
   the other filter's cookie name), so that any other leak is still reported.
 -/
+import AuthProofs.StateInventory
 import AuthModel.Factory
 import AuthProofs.Ladder
 import AuthProofs.FailClosed
@@ -75,6 +76,9 @@ theorem second_filter_timeouts_ignored : timeoutsOf built (get built fB) = some 
 example : get (preRun [⟨B "redis://h/0", 0, 0⟩, ⟨B "redis://h/1", 5, 0⟩] { memory := none, redis := [] }) ⟨B "redis://h/0", 0, 0⟩
     ≠ get (preRun [⟨B "redis://h/0", 0, 0⟩, ⟨B "redis://h/1", 5, 0⟩] { memory := none, redis := [] }) ⟨B "redis://h/1", 5, 0⟩ := by decide
 
+/-- NO HIDDEN STATE: the model treats a check as a function of (configuration, request, store answers, clock, IdP and key-source answers, entropy); that is a faithful reading of the code only if nothing else survives from one check to the next. Regenerated on every run: every package-level variable and struct field of internal/server, internal/authz, internal/http, internal/oidc is the classified expectation, and handlers, filter, HTTP helpers and the Redis store own no mutable state (no verdict cache, handler cache, object pool, single-flight group or per-process copy of session data). -/
+theorem no_hidden_state : CheckPathInventory := check_path_inventory
+
 end AuthProps.C18
 
 #print axioms AuthProps.C18.own_config_governs
@@ -84,3 +88,4 @@ end AuthProps.C18
 #print axioms AuthProps.C18.memory_timeouts_first_filter
 #print axioms AuthProps.C18.shared_memory_store
 #print axioms AuthProps.C18.second_filter_timeouts_ignored
+#print axioms AuthProps.C18.no_hidden_state
